@@ -234,6 +234,16 @@ def build_set(setname, shapes, check_determinism=True):
         def gen(s):
             d = os.path.join(root, s.name)
             os.makedirs(d)
+            if getattr(s, "parquet_bytes", None) is not None:
+                # parquetgen -parquet: struct definition regenerated from a file, then reader/writer from it
+                with open(os.path.join(d, "in.parquet"), "wb") as f:
+                    f.write(s.parquet_bytes)
+                rc, o, e = C.run([pg, "-parquet", "in.parquet", "-type", "Root", "-package", s.name, "-struct-output", "generated_struct.go"], cwd=d, timeout=120)
+                if rc != 0 or not os.path.exists(os.path.join(d, "parquet.go")):
+                    return s.name, "gen-fail", (o + e)[-400:]
+                with open(os.path.join(d, "adapter.go"), "w") as f:
+                    f.write(ADAPTER % {"pkg": s.name})
+                return s.name, "ok", ""
             with open(os.path.join(d, "types.go"), "w") as f:
                 f.write(s.go_source(s.name))
             rc, o, e = C.run([pg, "-input", "types.go", "-type", "Root", "-package", s.name], cwd=d, timeout=120)
